@@ -81,6 +81,7 @@ theorem binop_agree (op : String) (rs d s v : Nat) (hop : op ∈ Rtl.binops) (hw
     | (rw [Nat.add_comm]; exact h)
     | (rw [Nat.mul_comm]; exact h)
     | exact h.2
+    | (rw [if_neg h.1]; exact h.2)
     | (rw [Nat.and_comm]; exact h)
     | (rw [Nat.or_comm]; exact h)
     | (rw [Nat.xor_comm]; exact h)
